@@ -7,7 +7,16 @@ use super::{
 };
 use crate::{
     error::{WriterError, WriterResult},
-    model::{Namespace, field::resolve_type, node::RustNode, structures::RustType},
+    model::{
+        Namespace,
+        field::resolve_type,
+        node::RustNode,
+        structures::{
+            RustType,
+            complex::ComplexProps,
+            element::{ElementProps, ElementType},
+        },
+    },
     reader::{WELL_KNOWN_NAMESPACES, WriteXml},
 };
 use roxmltree::{Document, Node};
@@ -23,6 +32,9 @@ pub struct RustDocument {
     pub(crate) soap_ports: Vec<Rc<SoapPort>>,
     pub(crate) soap_bindings: Vec<Rc<SoapBinding>>,
     pub(crate) soap_services: Vec<SoapService>,
+    /// components that are being converted ahead of their declaration (forward references); used to stop
+    /// a component that refers to itself from being converted without end
+    pub(crate) resolving: Vec<(String, Wanted)>,
 }
 
 impl RustDocument {
@@ -72,6 +84,7 @@ impl RustDocument {
             soap_ports: Vec::new(),
             soap_bindings: Vec::new(),
             soap_services: Vec::new(),
+            resolving: Vec::new(),
         }
     }
 
@@ -251,6 +264,32 @@ impl Wanted {
         }
     }
 
+    /// a stand-in for a component that is still being converted
+    fn placeholder(self, xml_name: &str, doc: &RustDocument) -> RustNode {
+        let rust_type = match self {
+            Wanted::Type => RustType::Complex(
+                ComplexProps {
+                    xml_name: xml_name.to_string(),
+                    fields: vec![],
+                    target_namespace: doc.current_target_namespace.clone(),
+                    comment: None,
+                }
+                .into(),
+            ),
+            Wanted::Element => RustType::Element(
+                ElementProps {
+                    xml_name: xml_name.to_string(),
+                    element_type: ElementType::Unsupported,
+                }
+                .into(),
+            ),
+        };
+        RustNode {
+            rust_type,
+            in_namespace: doc.current_target_namespace.clone(),
+        }
+    }
+
     fn accepts_tag(self, node: &Node) -> bool {
         let is_global = node
             .parent()
@@ -297,8 +336,17 @@ fn try_to_find_node_by_xml_name_in_xml_doc<'n>(
                     continue;
                 }
 
-                let rust_node = RustNode::try_from_node(node, doc)?;
-                return Ok(rust_node);
+                // a component that (directly or through others) refers to itself: the reference only needs to
+                // know that the component exists, so do not convert it again
+                let key = (xml_name.to_string(), wanted);
+                if doc.resolving.contains(&key) {
+                    return Ok(wanted.placeholder(xml_name, doc));
+                }
+
+                doc.resolving.push(key);
+                let rust_node = RustNode::try_from_node(node, doc);
+                doc.resolving.pop();
+                return rust_node;
             }
         }
     }
